@@ -86,7 +86,13 @@ class _Impl:
         k = op["op"]
         wf = self.wf
         if k == "read":
-            return ["name", self.sig(op["i"], op["via"]).name]
+            name = self.sig(op["i"], op["via"]).name
+            if not isinstance(name, str):
+                raise RuntimeError("name is not a str: %r" % (name,))
+            return ["name", name]
+        if k == "writebad":
+            self.sig(op["i"], op["via"]).name = {"int": 5, "none": None, "bytes": b"x", "list": ["a"]}[op["v"]]
+            return ["none"]
         if k == "write":
             tgt = self
             if op["via"] == "twin" and self.twin is not None:
@@ -237,6 +243,8 @@ def _opc(op, pre):
         return "(NRead %s)" % vf.zc(op["i"])
     if k == "write":
         return "(NWrite %s %s)" % (vf.zc(op["i"]), _s(op["v"]))
+    if k == "writebad":
+        return "(NWriteBad %s)" % vf.zc(op["i"])
     if k == "setprop":
         return "(NSetProp %s)" % _s(op["v"])
     if k == "delprop":
@@ -324,7 +332,7 @@ def step_sigs(pairs):
 
 def _rand_op(rng, n, known):
     ri = lambda: rng.randrange(-n, n + 1) if n else rng.choice([0, 1])
-    k = rng.choice(["read"] * 6 + ["write"] * 4 + ["setprop"] * 3 + ["delprop"] * 2 + ["merge"] * 3 + ["other"] * 2
+    k = rng.choice(["read"] * 6 + ["write"] * 4 + ["writebad"] + ["setprop"] * 3 + ["delprop"] * 2 + ["merge"] * 3 + ["other"] * 2
                    + ["lookup"] * 3 + ["pickle"] * 3)
     if k == "read":
         return {"op": k, "i": ri(), "via": rng.choice(["coll", "coll", "keep", "handle", "handle"])}
@@ -332,6 +340,8 @@ def _rand_op(rng, n, known):
         v = _mk_name(rng)
         known.append(v.strip())
         return {"op": k, "i": ri(), "v": v, "via": rng.choice(["coll", "coll", "keep", "handle", "twin"])}
+    if k == "writebad":
+        return {"op": k, "i": ri(), "v": rng.choice(["int", "none", "bytes", "list"]), "via": rng.choice(["coll", "keep", "handle"])}
     if k == "setprop":
         v = _mk_prop(rng, n)
         known.extend(x.strip() for x in v.split(","))
@@ -421,6 +431,31 @@ def gen_cases(rng, tier):
         prop = None if rng.random() < 0.3 else _mk_prop(rng, n)
         known = [x.strip() for x in (prop or "").split(",")] + ["zz"]
         ops = [_rand_op(rng, n, known) for _ in range(rng.randrange(1, 25))]
+        cases.append({"k": "hist", "n": n, "prop": prop, "ops": ops})
+    return cases
+
+
+def gen_fault_cases(rng, tier):
+    """for C07: histories dense in rejected calls (non-str names, bad indices, deleting an absent property)"""
+    cases = []
+    for _ in range(300 if tier == "quick" else 4000):
+        n = rng.choice([1, 2, 3, 4])
+        prop = None if rng.random() < 0.3 else _mk_prop(rng, n)
+        known = ["zz"]
+        ops = []
+        for _ in range(rng.randrange(2, 14)):
+            m = rng.random()
+            if m < 0.3:
+                ops.append({"op": "writebad", "i": rng.randrange(-n, n + 2), "v": rng.choice(["int", "none", "bytes", "list"]), "via": rng.choice(["coll", "keep", "handle"])})
+            elif m < 0.4:
+                ops.append({"op": "delprop", "how": rng.choice(["del", "pop"])})
+            elif m < 0.5:
+                ops.append({"op": "write", "i": n + rng.randrange(0, 3), "v": "x", "via": "coll"})
+            elif m < 0.8:
+                ops.append({"op": "read", "i": rng.randrange(0, n), "via": rng.choice(["coll", "keep", "handle"])})
+            else:
+                ops.append(_rand_op(rng, n, known))
+        ops += [{"op": "read", "i": j, "via": "coll"} for j in range(n)]
         cases.append({"k": "hist", "n": n, "prop": prop, "ops": ops})
     return cases
 
